@@ -202,8 +202,34 @@ func buildEnv(seed uint64, n int) *env {
 			in.snapJ = string(b)
 		}
 		e.inputs = append(e.inputs, in)
+		// the same query once more as a tree that went through the JSON decoder
+		// (leaf kinds re-inferred: EQUALS over a pattern, patterns in lists ...)
+		if in.tree != nil && i%2 == 0 {
+			var d expr.Expression
+			if json.Unmarshal([]byte(in.snapJ), &d) == nil && expr.Validate(&d) == nil {
+				e.inputs = append(e.inputs, withTree(q, df, &d))
+			}
+		}
+	}
+	// trees built through the constructors that the parser cannot produce
+	for _, b := range []*expr.Expression{
+		expr.Eq("name", "jo*n?"), expr.Eq("p", "/x+/"), expr.AND(expr.Eq("a", "b*"), expr.NOT(expr.Eq("c", expr.WILD("d?")))),
+		expr.IN("a", expr.LIST(expr.Lit("foo"), expr.WILD("b*r"), expr.Lit(3))), expr.Rang("a", "x*", "*", true),
+	} {
+		if expr.Validate(deepCopy(b).(*expr.Expression)) == nil {
+			e.inputs = append(e.inputs, withTree("\x00built", "", b))
+		}
 	}
 	return e
+}
+
+func withTree(q, df string, t *expr.Expression) input {
+	in := input{query: q, df: df, tree: t}
+	in.copy, _ = deepCopy(t).(*expr.Expression)
+	in.snapG = fmt.Sprintf("%#v", t)
+	b, _ := json.Marshal(t)
+	in.snapJ = string(b)
+	return in
 }
 
 type opRec struct {
